@@ -382,19 +382,42 @@ def reject_probes(rec):
     must_raise("class body `name = h.Signal()` (bundle)", lambda: h.bundle(type("CbName", (), {"name": h.Signal()})), "reserved-name-accepted:class")
 
     # additions to a Bundle definition that modules were already built from
-    def bundle_after_elab(form):
+    def bundle_after_elab(form, depth=0, how="port", which="used"):
+        """`depth`: the definition edited is used only as a member, `depth` levels down, of the bundle the module instantiates;
+        `how`: the module holds the outer bundle as a port, internally, or only through a sub-module's port."""
         b = h.Bundle(name=f"BAfter{next(_ctr)}")
         b.x = h.Signal()
+        outer = b
+        for _ in range(depth):
+            o = h.Bundle(name=f"BAfterOuter{next(_ctr)}")
+            o.y = h.Signal()
+            o.inner = outer()
+            outer = o
         m = h.Module(name=f"BAfterM{next(_ctr)}")
-        m.p = b(port=True)
-        h.elaborate(m)
-        if form == "setattr":
-            b.z = h.Signal(width=3)
+        if how == "port":
+            m.p = outer(port=True)
+        elif how == "internal":
+            m.p = outer()
         else:
-            b.add(h.Signal(width=2), name="z")
+            c = h.Module(name=f"BAfterC{next(_ctr)}")
+            c.p = outer(port=True)
+            m.p = outer()
+            m.i = c(p=m.p)
+        h.elaborate(m)
+        target = b if which == "used" else outer
+        if form == "setattr":
+            target.z = h.Signal(width=3)
+        else:
+            target.add(h.Signal(width=2), name="z")
 
-    must_raise("Bundle setattr after elaboration of a module using it", lambda: bundle_after_elab("setattr"), "post-elaboration-addition-accepted")
-    must_raise("Bundle add() after elaboration of a module using it", lambda: bundle_after_elab("add"), "post-elaboration-addition-accepted")
+    for depth in (0, 1, 2):
+        for how in ("port", "internal", "child"):
+            for which in (("used",) if depth == 0 else ("used", "outer")):
+                for form in ("setattr", "add"):
+                    rec.count("reject.bundle-after-elab")
+                    must_raise(f"Bundle {form} after elaboration of a module using it ({'directly' if depth == 0 else f'as a member, {depth} level(s) down'}; "
+                               f"{how}; edited definition: {which})",
+                               lambda form=form, depth=depth, how=how, which=which: bundle_after_elab(form, depth, how, which), "post-elaboration-addition-accepted")
 
     # a refusal leaves the offered object as it was
     def refusal_is_atomic():
